@@ -35,6 +35,11 @@ def gen(seed, i, tier):
     o = dict(GridSize=n, StepsPerTs=steps, VacuumGap=0, InterpolationPoints=order, derivation=r.choice([3, 4]), outstep=steps)
     if r.chance(0.3):
         o["PhaseSpaceShiftY"] = round(r.uniform(-2, 2), 2)
+    if i % 4 == 2:
+        # "every start relaxes" holds for every bunch of a train: two bunches of different charge, sometimes with an empty bucket between
+        a1 = round(r.loguniform(2e-4, 2e-3), 7)
+        o["BunchCurrent"] = [a1, round(a1 * r.choice([0.5, 1.0, 3.0]), 7)] if r.chance(0.6) else [a1, 0.0, round(a1 * r.choice([0.5, 2.0]), 7)]
+        o["GridSize"] = min(o["GridSize"], 96)
     zooms = [round(r.uniform(0.5, 0.9), 2), round(r.uniform(1.15, 1.7), 2)]
     if kind in ('none', 'diff'):
         zooms = [round(r.uniform(0.5, 0.9), 2), round(r.uniform(0.9, 1.2 if kind == 'none' else 1.0), 2)]
@@ -63,7 +68,10 @@ def run_case(args):
                 return None, res
             h = prog.H5(os.path.join(wd, name))
             out["runs"] += 1
-            return (h["/BunchLength/data"][:, 0].astype(float), h["/EnergySpread/data"][:, 0].astype(float)), res
+            BL, ES = h["/BunchLength/data"].astype(float), h["/EnergySpread/data"].astype(float)
+            if BL.ndim == 1:
+                BL, ES = BL[:, None], ES[:, None]
+            return (BL, ES), res
 
         order = o["InterpolationPoints"]
         a = 2 * math.pi / steps
@@ -74,35 +82,39 @@ def run_case(args):
                 ser, res = go(dict(DampingTime=td, rotations=float(T), InitialDistZoom=z), "z%s.h5" % z)
                 if ser is None:
                     continue
-                bl, es = ser
-                w = dict(options=out["opts"], zoom=z, cmd=" ".join(res["argv"]), final_length=bl[-1], final_spread=es[-1])
-                finals.append((bl[-1], es[-1]))
-                if order >= 3:
-                    eps = eps_for(order, o["derivation"], P0["delta"], a)
-                    for nm, v in (("length", bl[-1]), ("spread", es[-1])):
-                        out["res"]["final_width_err_over_eps.order%d" % order] = max(out["res"].get("final_width_err_over_eps.order%d" % order, 0), abs(v - 1) / eps)
-                        if abs(v - 1) > eps:
-                            out["viol"].append(("C04:limit:" + nm + ":order%d" % order, "bunch %s does not converge to 1 within the discretisation error" % nm, dict(w, eps=eps)))
-                drift = max(np.max(np.abs(np.diff(bl[-6:]))), np.max(np.abs(np.diff(es[-6:]))))
-                out["res"]["late_change_per_period"] = max(out["res"].get("late_change_per_period", 0), drift / 1e-4)
-                if drift > 1e-4:
-                    out["viol"].append(("C04:not_stationary", "widths still change by more than 1e-4 per period after 12 damping times", dict(w, change=float(drift))))
-                S = bl ** 2 + es ** 2
-                S = S - S[-1]        # decay towards the grid's own stationary value
-                want = math.exp(-e1 * steps)
-                ratios = [S[k + 1] / S[k] for k in range(1, len(S) - 1) if 0.05 < abs(S[k]) < 1.0 and 0.05 < abs(S[k + 1]) < 1.0]
-                if ratios and order >= 3:
-                    dev = max(abs(math.log(x / want)) / (e1 * steps) for x in ratios if x > 0) if all(x > 0 for x in ratios) else 9.0
-                    out["res"]["decay_rate_rel_dev"] = max(out["res"].get("decay_rate_rel_dev", 0), dev / 0.05)
-                    out["rates"] = out.get("rates", 0) + len(ratios)
-                    if dev > 0.05:
-                        out["viol"].append(("C04:decay_rate", "relaxation rate differs from 2/t_d by more than 5%", dict(w, measured=ratios[:4], expected=want, e1=e1)))
+                BL, ES = ser
+                finals.append((BL[-1].copy(), ES[-1].copy()))
+                for bn in range(BL.shape[1]):
+                    bl, es = BL[:, bn], ES[:, bn]
+                    bk = ':bunch>0' if bn else ''
+                    out['bunch_series'] = out.get('bunch_series', 0) + (1 if bn else 0)
+                    w = dict(options=out["opts"], zoom=z, bunch=bn, cmd=" ".join(res["argv"]), final_length=bl[-1], final_spread=es[-1])
+                    if order >= 3:
+                        eps = eps_for(order, o["derivation"], P0["delta"], a)
+                        for nm, v in (("length", bl[-1]), ("spread", es[-1])):
+                            out["res"]["final_width_err_over_eps.order%d" % order] = max(out["res"].get("final_width_err_over_eps.order%d" % order, 0), abs(v - 1) / eps)
+                            if abs(v - 1) > eps:
+                                out["viol"].append(("C04:limit:" + nm + ":order%d" % order + bk, "bunch %s does not converge to 1 within the discretisation error" % nm, dict(w, eps=eps)))
+                    drift = max(np.max(np.abs(np.diff(bl[-6:]))), np.max(np.abs(np.diff(es[-6:]))))
+                    out["res"]["late_change_per_period"] = max(out["res"].get("late_change_per_period", 0), drift / 1e-4)
+                    if drift > 1e-4:
+                        out["viol"].append(("C04:not_stationary" + bk, "widths still change by more than 1e-4 per period after 12 damping times", dict(w, change=float(drift))))
+                    S = bl ** 2 + es ** 2
+                    S = S - S[-1]        # decay towards the grid's own stationary value
+                    want = math.exp(-e1 * steps)
+                    ratios = [S[k + 1] / S[k] for k in range(1, len(S) - 1) if 0.05 < abs(S[k]) < 1.0 and 0.05 < abs(S[k + 1]) < 1.0]
+                    if ratios and order >= 3:
+                        dev = max(abs(math.log(x / want)) / (e1 * steps) for x in ratios if x > 0) if all(x > 0 for x in ratios) else 9.0
+                        out["res"]["decay_rate_rel_dev"] = max(out["res"].get("decay_rate_rel_dev", 0), dev / 0.05)
+                        out["rates"] = out.get("rates", 0) + len(ratios)
+                        if dev > 0.05:
+                            out["viol"].append(("C04:decay_rate" + bk, "relaxation rate differs from 2/t_d by more than 5%", dict(w, measured=ratios[:4], expected=want, e1=e1)))
             if len(finals) == 2:
-                diff = max(abs(finals[0][0] - finals[1][0]), abs(finals[0][1] - finals[1][1]))
+                diff = float(max(np.max(np.abs(finals[0][0] - finals[1][0])), np.max(np.abs(finals[0][1] - finals[1][1]))))
                 out["res"]["limit_depends_on_start"] = diff / 1e-3
                 out["pairs"] = 1
                 if diff > 1e-3:
-                    out["viol"].append(("C04:limit_depends_on_start", "two initial zoom factors relax to different widths", dict(options=out["opts"], zooms=zooms, finals=finals)))
+                    out["viol"].append(("C04:limit_depends_on_start", "two initial zoom factors relax to different widths", dict(options=out["opts"], zooms=zooms, finals=[[list(map(float, x)) for x in f] for f in finals])))
         else:
             fpt = dict(damp=1, diff=2, none=0)[kind]
             z0 = zooms[i % 2]
@@ -117,21 +129,25 @@ def run_case(args):
                 extra = dict(DampingTime=0.0, rotations=nper, InitialDistZoom=z0)
             ser, res = go(extra, "m.h5")
             if ser is not None:
-                bl, es = ser
-                w = dict(options=dict(out["opts"], **extra), cmd=" ".join(res["argv"]), lengths=[float(x) for x in bl], spreads=[float(x) for x in es])
+                BL, ES = ser
                 out["mono"] = 1
-                if kind == "damp" and not (np.all(np.diff(bl) < 0) and np.all(np.diff(es) < 0)):
-                    out["viol"].append(("C04:damping_only_not_shrinking", "with damping only the widths do not shrink monotonically", w))
-                if kind == "diff" and not (np.all(np.diff(bl) > 0) and np.all(np.diff(es) > 0)):
-                    out["viol"].append(("C04:diffusion_only_not_growing", "with diffusion only the widths do not grow monotonically", w))
-                if kind == "none":
-                    tot = bl ** 2 + es ** 2
-                    dS = float(np.max(np.abs(tot - tot[0])) / tot[0])
-                    dw = float(max(np.max(np.abs(bl - bl[0])) / bl[0], np.max(np.abs(es - es[0])) / es[0]))
-                    out["res"]["no_fp_sum_of_variances_change"] = dS / 1e-3
-                    out["res"]["no_fp_width_change_over_splitting_error"] = dw / a
-                    if dS > 1e-3 or dw > a:
-                        out["viol"].append(("C04:no_fp_does_not_stay_put", "with neither damping nor diffusion the widths do not stay put", dict(w, rel_change_sum=dS, rel_change_width=dw, a=a)))
+                for bn in range(BL.shape[1]):
+                    bl, es = BL[:, bn], ES[:, bn]
+                    bk = ':bunch>0' if bn else ''
+                    out['bunch_series'] = out.get('bunch_series', 0) + (1 if bn else 0)
+                    w = dict(options=dict(out["opts"], **extra), bunch=bn, cmd=" ".join(res["argv"]), lengths=[float(x) for x in bl], spreads=[float(x) for x in es])
+                    if kind == "damp" and not (np.all(np.diff(bl) < 0) and np.all(np.diff(es) < 0)):
+                        out["viol"].append(("C04:damping_only_not_shrinking" + bk, "with damping only the widths do not shrink monotonically", w))
+                    if kind == "diff" and not (np.all(np.diff(bl) > 0) and np.all(np.diff(es) > 0)):
+                        out["viol"].append(("C04:diffusion_only_not_growing" + bk, "with diffusion only the widths do not grow monotonically", w))
+                    if kind == "none":
+                        tot = bl ** 2 + es ** 2
+                        dS = float(np.max(np.abs(tot - tot[0])) / tot[0])
+                        dw = float(max(np.max(np.abs(bl - bl[0])) / bl[0], np.max(np.abs(es - es[0])) / es[0]))
+                        out["res"]["no_fp_sum_of_variances_change"] = dS / 1e-3
+                        out["res"]["no_fp_width_change_over_splitting_error"] = dw / a
+                        if dS > 1e-3 or dw > a:
+                            out["viol"].append(("C04:no_fp_does_not_stay_put" + bk, "with neither damping nor diffusion the widths do not stay put", dict(w, rel_change_sum=dS, rel_change_width=dw, a=a)))
     finally:
         pool.put(xdg)
         shutil.rmtree(wd, ignore_errors=True)
@@ -142,7 +158,7 @@ def run(ctx):
     from checks.c10 import XdgPool
     ctx.assumptions = ASSUME
     ctx.rule = ("API: one Fokker-Planck application on Gaussian rows (FP type 0-3, stencil 3/4, grid 64..256, decrement, width, mean); "
-                "program: relaxation groups (two zooms each; grid 64..256, steps 50..500, e1 1.2e-3..0.25 delta^2, stencil, order 2-4) over 12 damping times + monotonicity runs for damping-only / diffusion-only / none; distinct by parameters")
+                "program: relaxation groups (two zooms each; a quarter of all cases are two-bunch trains, every bunch judged on its own; grid 64..256, steps 50..500, e1 1.2e-3..0.25 delta^2, stencil, order 2-4) over 12 damping times + monotonicity runs for damping-only / diffusion-only / none; distinct by parameters")
     th = ctx.tier == "thorough"
     core.run_harness(ctx, "c04", 8000 if th else 800)
     core.run_harness(ctx, "c04", 400 if th else 48, variant="asan")
@@ -159,9 +175,10 @@ def run(ctx):
         ctx.ev("relaxation_pairs", res.get("pairs", 0))
         ctx.ev("decay_ratios_measured", res.get("rates", 0))
         ctx.ev("monotonicity_runs", res.get("mono", 0))
+        ctx.ev("series_of_second_bunches_judged", res.get("bunch_series", 0))
         for k, v in res["res"].items():
             ctx.residual(k, v, 1.0)
         for key, what, det in res["viol"]:
             ctx.violation(key, what, det)
         ctx.sample(dict(kind=res["kind"], options=res["opts"], runs=res["runs"]))
-    ctx.min_events = {"fp_applications": 500, "program_runs": n, "relaxation_pairs": n // 3, "decay_ratios_measured": n // 2, "monotonicity_runs": n // 3}
+    ctx.min_events = {"fp_applications": 500, "program_runs": n, "relaxation_pairs": n // 3, "decay_ratios_measured": n // 2, "monotonicity_runs": n // 3, "series_of_second_bunches_judged": n // 6}
